@@ -236,7 +236,15 @@ func TestC16Damage(t *testing.T) {
 					}
 				}
 			}
-			n, _ := h0.restart(restartOpts{K: k, Late: rapid.Bool().Draw(rt, "late"), Config: cfg, AdoptFailNext: adoptFaults, StoreFlavour: flavour, FSMutate: fsMutate, Mutate: func(store map[uint][]byte) {
+			// a misconfigured restart first: limits below what is pending make
+			// AdoptSession give up (after it cleaned up). What it found and
+			// removed must be reported all the same: the next invocation
+			// sees a tidy store.
+			preLimits := 0
+			if len(adoptFaults) == 0 && rapid.IntRange(0, 4).Draw(rt, "misconfiguredRestartFirst") == 0 {
+				preLimits = 1
+			}
+			n, _ := h0.restart(restartOpts{K: k, Late: rapid.Bool().Draw(rt, "late"), Config: cfg, AdoptFailNext: adoptFaults, StoreFlavour: flavour, FSMutate: fsMutate, PreAdoptLimits: preLimits, Mutate: func(store map[uint][]byte) {
 				for _, d := range dmg {
 					v := store[d.Key]
 					switch d.Kind {
@@ -275,6 +283,12 @@ func TestC16Damage(t *testing.T) {
 				_, after := snapshot[key&0xc000|(key+1)&0x3fff]
 				if before && after && key >= 0x8000 && key <= 0xffff {
 					n.label("damage-in-the-middle-of-a-queue:" + map[bool]string{true: "removed", false: "unusable"}[kind == "remove"])
+				}
+			}
+			if n.PreAdoptRan && n.PreAdoptFatal != nil {
+				n.label("adoption-after-a-restart-which-failed-on-its-limits")
+				if !strings.Contains(n.PreAdoptFatal.Error(), "is less than") {
+					n.Failf("AdoptSession with limits of 1 failed on a damaged Persistence for another reason than its limits: %v", n.PreAdoptFatal)
 				}
 			}
 			// 1. neither panic nor fatal
